@@ -8,6 +8,8 @@ def run(ctx):
     L.rule_tags(ctx, "R3")
     L.rule_model(ctx, "R4")
     L.rule_hierarchy(ctx, "R7", thorough=ctx.tier == "thorough")
+    from . import common_state as ST
+    ST.rule_memo_keys(ctx, "R8")
     from .c08 import model_table
     model_table(ctx, "R5")
     ctx.rule("R6", "special hosts (kept as one stem): SPECIAL_HOSTS_RE accepts exactly localhost / dotted quads (optional port) / colon-bearing hex literals as whole strings")
